@@ -611,6 +611,14 @@ def parent_parsers_context(key, parser):
         parent_parsers.reset(token)
 
 
+def _subcommand_settings(cfg: Namespace, key: str) -> Optional[Namespace]:
+    """Returns the settings given for a subcommand, None if there are none."""
+    settings = cfg.get(key)
+    if settings is not None and not isinstance(settings, Namespace):
+        raise TypeError(f'Expected the settings of subcommand "{key}" to be a mapping, got: {settings!r}')
+    return settings
+
+
 class _ActionSubCommands(_SubParsersAction):
     """Extension of argparse._SubParsersAction to modify subcommands functionality."""
 
@@ -669,7 +677,9 @@ class _ActionSubCommands(_SubParsersAction):
         # parse arguments
         if subcommand in self._name_parser_map:
             subparser = self._name_parser_map[subcommand]
-            subnamespace = namespace.get(subcommand).clone() if subcommand in namespace else None
+            subnamespace = _subcommand_settings(namespace, subcommand)
+            if subnamespace is not None:
+                subnamespace = subnamespace.clone()
             kwargs = dict(_skip_validation=True, **parse_kwargs.get())
             namespace[subcommand] = subparser.parse_args(arg_strings, namespace=subnamespace, **kwargs)
 
@@ -791,7 +801,7 @@ class _ActionSubCommands(_SubParsersAction):
 
             # Update all subcommand settings
             if subnamespace is not None:
-                cfg[key] = subparser.merge_config(cfg.get(key, Namespace()), subnamespace)
+                cfg[key] = subparser.merge_config(_subcommand_settings(cfg, key) or Namespace(), subnamespace)
 
             # Handle inner subcommands
             if subparser._subparsers is not None:
